@@ -82,6 +82,7 @@ def CircuitShapeOk (sv : ShapeVec) : Prop :=
   sv.logMax ≤ 31 ∧
   sv.numBetas = sv.numCommits ∧ sv.numBetas = sv.numPow ∧
   sv.firstArities.length = sv.numBetas ∧
+  (∀ la ∈ sv.firstArities, 1 ≤ la) ∧
   sv.queries ≠ [] ∧ sv.numBetas ≠ 0 ∧
   (∀ q ∈ sv.queries, q.arities.length = sv.numBetas ∧ q.arities = sv.firstArities ∧ SibsOk q) ∧
   sv.finalLen = 2 ^ sv.p.logFinalPolyLen ∧
